@@ -1029,6 +1029,10 @@ def _register():
                              doc="writes exactly 32 bytes, little endian")
 
     # ---- blake3_portable.c ------------------------------------------------------------------
+    U["compress_pre"] = _u(
+        "compress_pre", ["C07"], file=P,
+        inlined=["round_fn", "g", "rotr32", "load32", "counter_low", "counter_high"],
+        doc="the 7 rounds: reads cv[8], block[64]; writes exactly state[0..16); every block_len/counter/flags; loop-free")
     U["blake3_compress_in_place_portable"] = _u(
         "blake3_compress_in_place_portable", ["C07"], file=P,
         inlined=["compress_pre", "round_fn", "g", "rotr32", "load32", "counter_low", "counter_high"],
@@ -1260,6 +1264,15 @@ def _fn(base, doc, props=("C06",), **kw):
 
 
 def _register_fn(U):
+    pre_doc = ("with compress_pre (the 7 rounds) as THE uninterpreted function PRE(cv, block, block_len, counter, flags) -> "
+               "16 state words (lo = words 0..7, hi = words 8..15): ")
+    U["blake3_compress_in_place_portable_fn"] = _fn(
+        "blake3_compress_in_place_portable", pre_doc + "cv'[i] == lo[i] ^ hi[i] for all 8 words: the feed-forward, and all "
+        "five arguments reach compress_pre unchanged", replace=["compress_pre"], inlined=[], solver="minisat2")
+    U["blake3_compress_xof_portable_fn"] = _fn(
+        "blake3_compress_xof_portable", pre_doc + "out word i == lo[i] ^ hi[i], out word 8 + i == hi[i] ^ cv[i] (little "
+        "endian), i < 8; cv and block are not written (frame)", replace=["compress_pre"], inlined=["store32"],
+        solver="minisat2")
     U["blake3_compress_in_place_fn"] = _fn(
         "blake3_compress_in_place",
         "every dispatch branch: cv' == UFcip(cv, block[0..64), block_len, counter, flags) -- all five "
